@@ -21,19 +21,19 @@ CHECKS["C14"] = {
 }
 
 CHECKS["C05"] = {
-    "text": "Symbolic execution of the real dds_hash (all nested closures) under an interning ideal-hash model and an abstract struct model: totality per value skeleton (str or coded DDS error for every leaf valuation, size guard fires exactly above the symbolic option value) and collision-freedom for every pair of skeletons (hash equal => structurally equivalent modulo the documented identifications) with all leaves as solver variables (32-bit ints over their whole range, ints beyond 32 bits up to 2**39, ASCII strings <= 4, finite reals + concrete special floats). Cross-type collisions caused by the missing type tags are recorded known findings, matched by a structural rewriting predicate so that any other collision is still reported. Bounded by skeleton depth/width and leaf sizes.",
+    "text": "Symbolic execution of the real dds_hash (all nested closures) under an interning ideal-hash model and an abstract struct model: totality per value skeleton (str or coded DDS error for every leaf valuation, size guard fires exactly above the symbolic option value) and collision-freedom for every pair of skeletons (hash equal => structurally equivalent modulo the documented identifications) with all leaves as solver variables (32-bit ints over their whole range, ints beyond 32 bits up to 2**40 in both signs, ASCII strings <= 4, finite reals + concrete special floats). Cross-type collisions caused by the missing type tags are recorded known findings, matched by a structural rewriting predicate so that any other collision is still reported. Bounded by skeleton depth/width and leaf sizes.",
     "design_ref": "DESIGN.md 5-C05",
     "technique": "symbolic execution (CrossHair/z3) of dds_hash under an interning hash model; all pairs of value skeletons with symbolic leaves",
 }
 
 CHECKS["C08"] = {
-    "text": "Symbolic execution of the real MemoryStore / LocalFileStore / LRUCacheStore and built-in codecs, the local store running over a POSIX file-system model that is validated differentially against the real OS on every run: (1) every operation sequence of length 3 (quick) / 4 (thorough) over 2 keys and 2 paths incl. reopen, in lock step with a dictionary model, blob value symbolic; (2) for every pair of paths of 1..3 segments over a confusable alphabet (a, b, ab, '..', '.', dots, space, non-ASCII): committed to different keys each resolves to its own key and every created node lies inside the data directory; (3) DDSPathUtils.create accepts exactly absolute paths for every short string. Counterexamples are replayed on the real OS in a temporary directory.",
+    "text": "Symbolic execution of the real MemoryStore / LocalFileStore / LRUCacheStore and built-in codecs, the local store running over a POSIX file-system model that is validated differentially against the real OS on every run: (1) every operation sequence of length 3 (quick) / 4 (thorough) over 2 keys and 2 paths incl. reopen, in lock step with a dictionary model, blob value symbolic; (2) for every pair of paths of 1..3 segments over a confusable alphabet (a, b, ab, '..', '.', dots, space, non-ASCII): committed to different keys each resolves to its own key and every created node lies inside the data directory; (3) LocalFileStore._path_location on two fully symbolic path strings (<= 3 / 4 characters): accepted paths with different segment sequences get different locations, every location lies inside the data directory; (4) DDSPathUtils.create accepts exactly absolute paths for every short string. Counterexamples are replayed on the real OS in a temporary directory.",
     "design_ref": "DESIGN.md 5-C08",
     "technique": "symbolic execution (CrossHair/z3) of the real store classes over a file-system model, lock step against a dictionary model; path pairs chosen by the solver",
 }
 
 CHECKS["C06"] = {
-    "text": "Crash points as solver variables: the real _api / LocalFileStore / codec code runs over a POSIX file-system model (validated differentially against the OS on every run); the index of the mutating file-system operation at which the process is killed and the torn-write length are symbolic ints, blob contents symbolic strings. For every crash point of two scenarios (cold nested evaluation incl. store creation; re-keep of changed code over a committed store) a fresh recovery process must load old-or-new complete values, evaluate to the plain values, and heal (second evaluation executes nothing). Exhaustive over all operation boundaries of the scenarios within the stated torn-length bound; counterexamples are replayed on the real OS by killing a child process at the same operation.",
+    "text": "Crash points as solver variables: the real _api / LocalFileStore / codec code runs over a POSIX file-system model (validated differentially against the OS on every run); the index of the mutating file-system operation at which the process is killed and the torn-write length are symbolic ints, blob contents symbolic strings. For every crash point of three scenarios (cold nested evaluation incl. store creation; re-keep of changed code over a committed store; the same with the code edited again before the recovery and a recovering process that reuses the pid of the killed one) a fresh recovery process must load old-or-new complete values, evaluate to the plain values, serve them at every path right afterwards, and heal (second evaluation executes nothing). Exhaustive over all operation boundaries of the scenarios within the stated torn-length bound; counterexamples are replayed on the real OS by killing a child process at the same operation.",
     "design_ref": "DESIGN.md 5-C06",
     "technique": "symbolic execution (CrossHair/z3) of the real evaluation + local store over a file-system model with a symbolic crash index and torn-write length; real-OS replay by os._exit in a child",
 }
@@ -74,12 +74,12 @@ CHECKS["C04"] = {
 }
 
 CHECKS["C10"] = {
-    "text": "Real _api evaluation code over memory and local (file-system model) stores on a depth-3 pipeline with a shared sub-node and a run-time-argument keep: the index of the user-function invocation that raises, the exception class (ValueError subclass, KeyboardInterrupt, BaseException subclass) and the follow-up evaluation (same pipeline repaired / another pipeline) are solver variables (enumerated through the solver), the payload a symbolic string. Checked on every path: the very same exception object propagates; no blob under the signature of the failing node or of the nodes waiting for it, only completed nodes stored; no path committed; evaluation context cleared; the next evaluation returns the plain values, executes exactly the nodes that had not completed, and commits.",
+    "text": "Real _api evaluation code over memory and local (file-system model) stores on a depth-3 pipeline with a shared sub-node and a run-time-argument keep: the index of the user-function invocation that raises, the exception class (ValueError subclass, KeyboardInterrupt, BaseException subclass, FileNotFoundError) and the follow-up evaluation (same pipeline repaired / another pipeline) are solver variables (enumerated through the solver), the payload a symbolic string. Checked on every path: the very same exception object propagates; no blob under the signature of the failing node or of the nodes waiting for it, only completed nodes stored; no path committed; evaluation context cleared; the next evaluation returns the plain values, executes exactly the nodes that had not completed, and commits.",
     "design_ref": "DESIGN.md 5-C10",
     "technique": "symbolic execution (CrossHair/z3) of the real evaluation with the failing invocation index / exception class / follow-up as solver variables",
 }
 CHECKS["C15"] = {
-    "text": "(1) _parse_stages on symbolic stage lists of length 0..5: the stage each element names, its spelling (enum member, lower / upper / mixed-case name, value) and adversarial non-stage values are solver variables; exactly the prefixes of the stage order are accepted, everything else ends in a DDSException. (2) Real evaluation over memory and local (file-system model) stores for every prefix length x spelling x {cold, committed} store: no user code / blob / path without EVAL, unchanged path table without PATH_COMMIT, signatures equal to an unrestricted analysis, and a later full evaluation returns plain values and commits.",
+    "text": "(1) _parse_stages on symbolic stage lists of length 0..5: the stage each element names, its spelling (enum member, lower / upper / mixed-case name, value) and adversarial non-stage values are solver variables; exactly the prefixes of the stage order are accepted, everything else ends in a DDSException. (2) Real evaluation over memory and local (file-system model) stores for every prefix length x spelling x 6 store pre-states (cold; other version committed; every blob of the evaluated version present while the paths serve the other version; up to date; the last two also with the root itself kept): no user code / blob / path without EVAL, unchanged path table without PATH_COMMIT, signatures equal to an unrestricted analysis, and a later full evaluation returns plain values and commits.",
     "design_ref": "DESIGN.md 5-C15",
     "technique": "symbolic execution (CrossHair/z3) of _parse_stages on symbolic lists and of the stage gates of the real evaluation",
 }
@@ -103,19 +103,19 @@ CHECKS["C16"] = {
 }
 
 CHECKS["C17"] = {
-    "text": "Real CodecRegistry / built-in codecs / LocalFileStore.store_blob + fetch_blob over the file-system model: the content of a str (any code points) or bytes value is symbolic, and between write and read a solver-chosen sequence of up to 3 codec registrations (user codecs for str, bytes, object, as codec or file codec, one re-using the built-in reference) or a fresh process (default registry rebuilt) takes place; the value must be read back equal and of the same type, with the codec whose reference the .meta file names, and str / bytes must be stored verbatim. Plus CodecRegistry.get_codec against the documented rules (reference wins, else the type's codec, else the object codec, else DDSException) for all (type, reference) pairs after symbolic registration sequences. Pickled values are concrete witnesses; pandas is outside.",
+    "text": "Real CodecRegistry / built-in codecs / LocalFileStore.store_blob + fetch_blob over the file-system model: the content of a str (any code points) or bytes value is symbolic, and between write and read a solver-chosen sequence of up to 3 codec registrations (user codecs for str, bytes, object, as codec or file codec, one re-using the built-in reference) or a fresh process (default registry rebuilt) takes place; the value must be read back equal and of the same type, with the codec whose reference the .meta file names, and str / bytes must be stored verbatim. Plus CodecRegistry.get_codec against the documented rules (reference wins, else the type's codec, else the object codec, else DDSException) for all (type, reference) pairs after symbolic registration sequences. When the codec / store modules define module-level size constants, two further queries run the round trip with these constants scaled down to 1. Pickled values are concrete witnesses; pandas is outside.",
     "design_ref": "DESIGN.md 5-C17",
     "technique": "symbolic execution (CrossHair/z3) of the codec registry and built-in codecs over a file-system model with symbolic contents and registration sequences; real-OS replay",
 }
 
 CHECKS["C19"] = {
-    "text": "Real set_store('dbfs') / CommitType.parse / DBFSStore / codecs / evaluation / load code against an in-process fake of dbutils.fs over the file-system model: (1) the commit type given as documented name, enum name or value in a solver-chosen case, None, or an unknown name - documented names accepted, unknown ones a DDSException; (2) under each commit type two evaluations of a three-path pipeline whose two tracked-variable versions per step and payload are solver variables: keep returns the plain values, 'full' leaves byte-identical copies plus redirect records, 'links only' records only, 'none' nothing, load returns the latest value exactly when a record exists, also from a fresh process; (3) blobs of kind string / bytes / pickle relabelled with the legacy reference dbfs.<kind> decode to the original (symbolic) value. No real Databricks: counterexamples are replayed against the fake only.",
+    "text": "Real set_store('dbfs') / CommitType.parse / DBFSStore / codecs / evaluation / load code against an in-process fake of dbutils.fs over the file-system model: (1) the commit type given as documented name, enum name or value in a solver-chosen case, None, or an unknown name - documented names accepted, unknown ones a DDSException; (2) under each commit type two (thorough: three) evaluations of a three-path pipeline whose two tracked-variable versions per step and payload are solver variables: keep returns the plain values, 'full' leaves byte-identical copies plus redirect records, 'links only' records only, 'none' nothing, load returns the latest value exactly when a record exists, also from a fresh process; (3) blobs of kind string / bytes / pickle relabelled with the legacy reference dbfs.<kind> decode to the original (symbolic) value. No real Databricks: counterexamples are replayed against the fake only.",
     "design_ref": "DESIGN.md 5-C19",
     "technique": "symbolic execution (CrossHair/z3) of the real DBFS store against a fake dbutils over a file-system model; commit-type spelling, versions per step and contents as solver variables",
 }
 
 CHECKS["C18"] = {
-    "text": "(1) Kernel: dds._plotting._structure on interaction trees of up to 7 nodes whose attributes - kept or not, named arguments, shared signature at the same / another path, loads of earlier kept or committed paths - are solver variables (enumerated through the solver, exhaustive per family), against a declarative specification: acyclic; nodes = kept paths + paths loaded by kept functions; solid edge u->v iff v reaches the keep of u through non-kept nodes only; dashed edge iff v itself loads u; any other edge dotted, from an earlier sibling's head node to a keep with named arguments. (2) Real evaluation with and without dds_export_graph on 8 template entry points: same result, signatures, blobs and paths; the dot text parsed back contains every kept path and is acyclic.",
+    "text": "(1) Kernel: dds._plotting._structure on interaction trees of up to 7 nodes, and on wide trees (root + 4 / 5 siblings, the first a kept node that later siblings reach again), whose attributes - kept or not, named arguments, shared signature at the same / another path, loads of earlier kept or committed paths - are solver variables (enumerated through the solver, exhaustive per family), against a declarative specification: acyclic; nodes = kept paths + paths loaded by kept functions; solid edge u->v iff v reaches the keep of u through non-kept nodes only; dashed edge iff v itself loads u; any other edge dotted, from an earlier sibling's head node to a keep with named arguments. (2) Real evaluation with and without dds_export_graph on 8 template entry points: same result, signatures, blobs and paths; the dot text parsed back contains every kept path and is acyclic.",
     "design_ref": "DESIGN.md 5-C18",
     "technique": "symbolic execution (CrossHair/z3) of _structure on interaction trees with symbolic attributes against a declarative graph specification; export vs no-export differential on templates",
 }
